@@ -679,7 +679,7 @@ func (g *gen) multiCase() {
 }
 
 func (g *gen) extCases(tier string) {
-	nRound, nText, nMulti := 1500, 1500, 700
+	nRound, nText, nMulti := 1000, 1000, 500
 	if tier == "thorough" {
 		nRound, nText, nMulti = 30000, 30000, 12000
 	}
